@@ -8,8 +8,10 @@ import (
 	"go/ast"
 	"go/token"
 	"go/types"
+	"os"
 	"strings"
 
+	"golang.org/x/tools/go/ast/astutil"
 	"golang.org/x/tools/go/ssa"
 )
 
@@ -210,4 +212,261 @@ func RunMarkAdvance(w *World, r *Report) {
 		}
 	}
 	r.Floor("markadvance", 2)
+}
+
+// RunIterFresh: a slice that is only used inside a loop (filled by append
+// and read in the same iteration, nothing of it is used after the loop)
+// must not carry elements from one iteration into the next: no append may
+// have the loop-carried value itself as its base (it must be re-sliced to
+// length 0 or replaced first).
+func RunIterFresh(w *World, r *Report, fns []*ssa.Function) {
+	r.Rule("iterfresh: a local slice that a loop body fills with append and reads in the same iteration, and that is not used after the loop, is reset at the start of every iteration: no append uses the value carried over from the previous iteration as its base")
+	for _, fn := range fns {
+		for _, l := range naturalLoops(fn) {
+			stmt := loopStmtOf(w, fn, l)
+			if stmt == nil {
+				continue
+			}
+			type cand struct {
+				ph    *ssa.Phi
+				stale token.Pos
+				reset bool
+			}
+			var cands []cand
+			for _, in := range l.head.Instrs {
+				ph, ok := in.(*ssa.Phi)
+				if !ok {
+					break
+				}
+				if _, isSl := ph.Type().Underlying().(*types.Slice); !isSl {
+					continue
+				}
+				// web: the header phi and phis inside the loop that may equal it
+				web := map[ssa.Value]bool{ph: true}
+				for changed := true; changed; {
+					changed = false
+					for b := range l.body {
+						for _, ii := range b.Instrs {
+							q, ok := ii.(*ssa.Phi)
+							if !ok {
+								break
+							}
+							if web[q] {
+								continue
+							}
+							for _, e := range q.Edges {
+								if web[e] {
+									web[q] = true
+									changed = true
+								}
+							}
+						}
+					}
+				}
+				// all values derived from the web inside the loop by append / reslicing
+				derived := map[ssa.Value]bool{}
+				for v := range web {
+					derived[v] = true
+				}
+				for changed := true; changed; {
+					changed = false
+					for b := range l.body {
+						for _, ii := range b.Instrs {
+							v, ok := ii.(ssa.Value)
+							if !ok || derived[v] {
+								continue
+							}
+							switch x := ii.(type) {
+							case *ssa.Call:
+								if bi, ok := x.Call.Value.(*ssa.Builtin); ok && bi.Name() == "append" && derived[x.Call.Args[0]] {
+									derived[v] = true
+									changed = true
+								}
+							case *ssa.Slice:
+								if derived[x.X] {
+									derived[v] = true
+									changed = true
+								}
+							case *ssa.Phi:
+								for _, e := range x.Edges {
+									if derived[e] {
+										derived[v] = true
+										changed = true
+									}
+								}
+							}
+						}
+					}
+				}
+				// blocks reached through the loop's own exit (condition false /
+				// range exhausted), as opposed to return paths out of the body
+				after := map[*ssa.BasicBlock]bool{}
+				var stack []*ssa.BasicBlock
+				for _, s := range l.head.Succs {
+					if !l.body[s] {
+						stack = append(stack, s)
+					}
+				}
+				for len(stack) > 0 {
+					b := stack[len(stack)-1]
+					stack = stack[:len(stack)-1]
+					if after[b] || l.body[b] {
+						continue
+					}
+					after[b] = true
+					stack = append(stack, b.Succs...)
+				}
+				usedAfter, readInside, staleAppend := false, false, false
+				var stalePos token.Pos
+				for v := range derived {
+					refs := v.Referrers()
+					if refs == nil {
+						continue
+					}
+					for _, ref := range *refs {
+						if ref.Block() == nil {
+							continue
+						}
+						if _, isPhi := ref.(*ssa.Phi); isPhi {
+							if !l.body[ref.Block()] {
+								usedAfter = true
+							}
+							continue
+						}
+						if rp := ref.Pos(); rp.IsValid() {
+							if rp < stmt.Pos() || rp > stmt.End() {
+								usedAfter = true
+								continue
+							}
+						} else if after[ref.Block()] {
+							if _, isPhi := ref.(*ssa.Phi); !isPhi {
+								usedAfter = true
+							}
+							continue
+						}
+						switch x := ref.(type) {
+						case *ssa.Call:
+							if bi, ok := x.Call.Value.(*ssa.Builtin); ok {
+								switch bi.Name() {
+								case "append":
+									if len(x.Call.Args) > 0 && x.Call.Args[0] == v && web[v] {
+										staleAppend = true
+										stalePos = x.Pos()
+									}
+									if len(x.Call.Args) > 1 && x.Call.Args[1] == v {
+										readInside = true
+									}
+								case "len":
+									readInside = true
+								default:
+									readInside = true
+								}
+							} else {
+								readInside = true
+							}
+						case *ssa.IndexAddr, *ssa.Range:
+							readInside = true
+						case *ssa.Slice:
+							if x.High != nil || x.Low != nil {
+								if c, ok := bconstInt(x.High); !(ok && c == 0 && x.Low == nil) {
+									readInside = true
+								}
+							}
+						case *ssa.Phi, *ssa.DebugRef:
+						case *ssa.Store, *ssa.Return, *ssa.MakeInterface, *ssa.MakeClosure:
+							if l.body[ref.Block()] {
+								usedAfter = true // kept beyond the iteration
+							} else {
+								readInside = true
+							}
+						}
+					}
+				}
+				if os.Getenv("SFNT_IFDEBUG") != "" {
+					fmt.Fprintln(os.Stderr, "iterfresh", fnName(fn), ph.Comment, "read", readInside, "after", usedAfter, "stale", staleAppend)
+				}
+				if !readInside || usedAfter {
+					continue
+				}
+				reset := false
+				for v := range web {
+					if refs := v.Referrers(); refs != nil {
+						for _, ref := range *refs {
+							if sl, ok := ref.(*ssa.Slice); ok && sl.X == v && sl.Low == nil && sl.High != nil {
+								if c, ok := bconstInt(sl.High); ok && c == 0 {
+									reset = true
+								}
+							}
+						}
+					}
+				}
+				c := cand{ph: ph, reset: reset && !staleAppend}
+				if staleAppend {
+					c.stale = stalePos
+				}
+				cands = append(cands, c)
+			}
+			anyReset := false
+			for _, c := range cands {
+				anyReset = anyReset || c.reset
+			}
+			if !anyReset {
+				continue // no sibling shows that the loop's slices are per-iteration
+			}
+			for _, c := range cands {
+				key := r.MkKey("iterfresh", fnName(fn), "loop-local slice "+c.ph.Comment)
+				if c.stale.IsValid() {
+					r.Fail("iterfresh", key, w.Pos(c.stale), "the slice "+c.ph.Comment+" is filled and read inside the loop only and its siblings are reset at the start of every iteration, but an append extends the value left over from the previous iteration: elements collected for an earlier candidate leak into the next one", nil)
+				} else {
+					r.OK("iterfresh", key, w.Pos(c.ph.Pos()), "reset before it is filled in every iteration")
+				}
+			}
+		}
+	}
+}
+
+// loopStmtOf: the innermost for/range statement whose source range contains
+// every positioned instruction of the loop body.
+func loopStmtOf(w *World, fn *ssa.Function, l *natLoop) ast.Stmt {
+	lo, hi := token.NoPos, token.NoPos
+	for b := range l.body {
+		for _, in := range b.Instrs {
+			if _, isPhi := in.(*ssa.Phi); isPhi {
+				continue
+			}
+			p := in.Pos()
+			if !p.IsValid() {
+				continue
+			}
+			if !lo.IsValid() || p < lo {
+				lo = p
+			}
+			if p > hi {
+				hi = p
+			}
+		}
+	}
+	if !lo.IsValid() {
+		return nil
+	}
+	pkg := w.PkgOf(fn)
+	if pkg == nil {
+		return nil
+	}
+	for _, f := range pkg.Syntax {
+		if f.Pos() <= lo && hi <= f.End() {
+			path, _ := astutil.PathEnclosingInterval(f, lo, hi)
+			for _, n := range path {
+				switch x := n.(type) {
+				case *ast.ForStmt:
+					return x
+				case *ast.RangeStmt:
+					return x
+				case *ast.FuncDecl, *ast.FuncLit:
+					return nil
+				}
+			}
+		}
+	}
+	return nil
 }
